@@ -16,7 +16,8 @@ CONSTANTS
   MaxCtlQ = 1000
   BugContES = FALSE
   BugPadCredit = FALSE
-INVARIANTS WithinGrant WithinMaxFrame NoEligibleQueued LedgerAgrees PrefixFidelity
+  EncodeAtEnqueue = FALSE
+INVARIANTS WithinGrant WithinMaxFrame NoEligibleQueued LedgerAgrees PrefixFidelity HpackInOrder
 CONSTRAINT HWM
 POSTCONDITION Accepted
 CHECK_DEADLOCK FALSE
